@@ -106,10 +106,7 @@ class Finders:
       return None
 
   def __search_edge_id(self, gfa_line):
-    previous = self.line(gfa_line.get("ID"))
-    if previous is not None and not previous.virtual:
-      return previous
-    return None
+    return self.line(gfa_line.get("ID"))
 
   def _search_link(self, orseg1, orseg2, cigar):
     s = self.segment(orseg1.line)
